@@ -48,6 +48,8 @@ pub struct Prog {
     /// behaviour is NOT applied: supervisors in the harness decide through this program)
     pub sup: Vec<Step>,
     pub post_stop: Vec<Step>,
+    /// the actor's state panics when it is dropped (unless the thread is unwinding already)
+    pub state_drop_panics: bool,
 }
 
 #[cfg(feature = "alt")]
@@ -150,6 +152,13 @@ pub struct ProbeState {
     pub prog: Prog,
     pub log: Log,
     pub version: u64,
+}
+impl Drop for ProbeState {
+    fn drop(&mut self) {
+        if self.prog.state_drop_panics && !std::thread::panicking() {
+            panic!("the state's destructor panics");
+        }
+    }
 }
 
 struct CbGuard<'a> {
@@ -292,6 +301,11 @@ impl Actor for Probe {
 
     fn pre_start(&self, myself: ActorRef<PMsg>, a: ProbeArgs) -> impl std::future::Future<Output = Result<ProbeState, ActorProcessingErr>> + Send {
         let g = Entered::now(&a.log, &a.id, Cb::PreStart, 0);
+        // a first step Panic("prelude") panics HERE, in the synchronous part of the callback, before there is a
+        // future the runtime could guard
+        if matches!(a.prog.pre_start.first(), Some(Step::Panic("prelude"))) {
+            panic!("pre_start panics in its synchronous prelude");
+        }
         async move {
             let mut version = 0;
             run_entered(g, a.prog.pre_start.clone(), myself, &mut version).await?;
